@@ -1301,6 +1301,10 @@ func (c *SpecCtx) call(e *Expr, pos bool) *Term {
 			}
 		}
 		return App("Ev", "ev", IntLit(evMark), arg(1), b, x.reg.StrLit(strArg(0)))
+	case "argsId":
+		// argsId(v): the name under which the marker of a logged call records its []string argument
+		x.reg.DeclFunc("argsId", []string{"Seq_Str"}, "Int")
+		return App("Int", "argsId", arg(0))
 	case "callOK":
 		// callOK("Func", i): the logged call of Func whose marker is at trace position i returned a nil error
 		x.reg.DeclFunc("callOK", []string{"Str", "Int"}, "Bool")
